@@ -209,7 +209,22 @@ class ExactFFT:
             return list(range(nd))
         return [int(x) % nd for x in axes]
 
+    def _clobber(self, x, kw):
+        """overwrite_x=True allows SciPy to destroy the input (complex input is transformed in place): afterwards the caller's
+        array holds unrelated values -- modelled by fresh unconstrained symbols"""
+        if not kw.get("overwrite_x"):
+            return
+        from . import core
+        from .scalars import SymComplex, SymReal
+
+        c = core.ctx()
+        if c is None or not isinstance(x, np.ndarray) or x.dtype != object:
+            return
+        for idx in np.ndindex(*x.shape):
+            x[idx] = SymComplex(SymReal(c.fresh("clobbered")), SymReal(c.fresh("clobbered")))
+
     def _check_kwargs(self, kw):
+        kw = {k: v for k, v in kw.items() if k != "overwrite_x"}
         extra = {k: v for k, v in kw.items() if v is not None}
         if extra:
             from .core import Unsupported
@@ -225,6 +240,7 @@ class ExactFFT:
         a = x
         for ax in self._axes(x, axes):
             a = self._dft_axis(a, ax, -1)
+        self._clobber(x, kw)
         return symarray(a)
 
     def ifftn(self, x, s=None, axes=None, **kw):
@@ -235,6 +251,7 @@ class ExactFFT:
         a = x
         for ax in self._axes(x, axes):
             a = self._dft_axis(a, ax, +1, scale=float(a.shape[ax]))
+        self._clobber(x, kw)
         return symarray(a)
 
     def rfftn(self, x, s=None, axes=None, **kw):
